@@ -100,12 +100,24 @@ func (P *Prog) VerifyFunc(f *ssa.Function, c *Contract) *Trans {
 	for _, ar := range t.autoRequires(c, names, ptypes, args) {
 		t.assume("true", ar)
 	}
+	// "self": the function value (callback contracts) this body is invoked through
+	if f.Signature.Recv() == nil {
+		t.emit("(declare-const self!fn Func)")
+		t.assume("true", "(not (= self!fn fnil))")
+		fr.ghosts["self"] = "self!fn"
+	} else if len(args) > 0 {
+		fr.ghosts["self"] = t.box(args[0], f.Params[0].Type())
+	}
 	sc0 := &SpecCtx{t: t, fr: fr, st: st0, old: st0}
 	for _, r := range c.Requires {
 		t.assume("true", sc0.expandBool(r.Expr))
 	}
 	for _, m := range c.Maintains {
 		t.assume("true", sc0.expandBool(m.Expr))
+	}
+	for _, a := range c.Assumes {
+		t.assume("true", sc0.expandBool(a.Expr))
+		t.trustedUsed[c.Key+"#"+a.Label+" (assumed at entry)"] = true
 	}
 	// reveal: instances of definitional axioms of opaque spec functions
 	for _, rv := range c.Extra["reveal"] {
@@ -122,6 +134,24 @@ func (P *Prog) VerifyFunc(f *ssa.Function, c *Contract) *Trans {
 	for i, r := range res {
 		post.results = append(post.results, specVal{r, rs.At(i).Type()})
 		t.evalTerms = append(t.evalTerms, r)
+	}
+	// ghost assignments at exit
+	for _, eu := range c.ExitUpdates {
+		comp := eu[0].Atom
+		srt, ok := P.ghostComps[comp]
+		if !ok {
+			t.errorf("exit-update of unknown ghost component %s", comp)
+			continue
+		}
+		t.env.Comp(comp, srt)
+		var nv string
+		if eu[1].IsAtom() && eu[1].Atom == "-" {
+			nv = t.define(srt, comp+"@x", post.expand(eu[2]))
+		} else {
+			nv = t.define(srt, comp+"@x", fmt.Sprintf("(store %s %s %s)", stF.get(comp), post.expand(eu[1]), post.expand(eu[2])))
+		}
+		stF = stF.set(comp, nv)
+		post.st = stF
 	}
 	for _, e := range c.Ensures {
 		if e.Kind == "ensures-assumed" {
